@@ -31,6 +31,7 @@ CONSTANTS
   MaxOps = 3
   MaxSnaps = 1
   MaxClock = 20
+  ExportFrom = 0
   WithPost = FALSE
   Bugs = {}
 VIEW View
